@@ -62,6 +62,14 @@ def make_site(net, reqs):
                 return aiocoap.Message(code=aiocoap.numbers.codes.Code(o[1]), payload=b"body-%d" % i)
             if o[0] == "msg-nocode":
                 return aiocoap.Message(payload=b"body-%d" % i)
+            if o[0] == "msg-bad":
+                # a Message object that passes every in-memory step but cannot be put on the wire: the failure
+                # surfaces as an exception at the bottom of the send path, inside the rendering task
+                if o[1] == "strpayload":
+                    return aiocoap.Message(code=aiocoap.numbers.codes.Code(69), payload=marker(i))
+                m = aiocoap.Message(code=aiocoap.numbers.codes.Code(69), payload=marker(i).encode())
+                m.opt.max_age = -1
+                return m
             if o[0] == "cre":
                 raise getattr(error, o[1])(marker(i))
             if o[0] == "custom":
@@ -152,10 +160,14 @@ def run_case(case, want_trace=False):
             cls = code >> 5
             nr = rq.get("noresp")
             may_suppress = nr is not None and (nr & (1 << (cls - 1))) != 0
+            if nr is not None and (rq["target"] == "resource" or (rq["target"] == "missing-method" and rq["method"] == 1)) and rq["outcome"][0] == "msg-bad" and (nr & 2) and not no_site:
+                # the handler returned a 2.05: when No-Response asks for 2.xx to be suppressed it is dropped
+                # before anything tries to serialise it, which is just as correct as the 5.00
+                may_suppress = True
             labels.add("exp-%s" % R.code_str(code))
             if rq["target"] == "resource":
                 labels.add("outcome-" + rq["outcome"][0] + ("-slow" if rq.get("delay") else ""))
-                if rq["outcome"][0] in ("exc", "ret", "custom") or rq["outcome"][0] == "cre":
+                if rq["outcome"][0] in ("exc", "ret", "custom", "msg-bad") or rq["outcome"][0] == "cre":
                     failing = True
             else:
                 labels.add(rq["target"])
@@ -175,7 +187,7 @@ def run_case(case, want_trace=False):
                 vio.append(V("C09/5.00-not-bare", "request %d %r: %s" % (i, rq, R.describe(f))))
         # no exception text on the wire for non-renderable failures
         for i, rq in enumerate(reqs):
-            if rq["target"] == "resource" and (rq["outcome"][0] in ("exc", "ret") or (rq["outcome"][0] == "custom" and rq["outcome"][1] == "raises")):
+            if rq["target"] == "resource" and (rq["outcome"][0] in ("exc", "ret", "msg-bad") or (rq["outcome"][0] == "custom" and rq["outcome"][1] == "raises")):
                 mk = marker(i).encode()
                 for w in wire:
                     if w["src"] == A and mk in w["data"]:
@@ -204,6 +216,7 @@ _outcome = st.one_of(
     st.tuples(st.just("custom"), st.sampled_from(["ok", "raises", "none"])).map(list),
     st.tuples(st.just("exc"), st.sampled_from(EXCS)).map(list),
     st.tuples(st.just("ret"), st.sampled_from(["none", "str", "int", "bytes", "tuple"])).map(list),
+    st.tuples(st.just("msg-bad"), st.sampled_from(["strpayload", "negmaxage"])).map(list),
 )
 
 
